@@ -155,6 +155,7 @@ impl Gen {
                     beh_addrs: vec![],
                     deny: rng.chance(1, 16),
                     refuse,
+                    ov: false,
                 }
             }
             20..=37 => {
